@@ -137,6 +137,44 @@ func one(data []byte, want result, cuts []int, maxPer int, eofWith bool, label s
 	}
 }
 
+// reusedSource: one reader object serves a file that ends at some offset and
+// is then given a second, complete file (bytes.Reader.Reset, a bytes.Buffer
+// refilled): the second file reads as it does from a fresh reader.
+func reusedSource(files [][]byte, names []string) {
+	for i := 0; i+1 < len(files) && i < 40; i++ {
+		a, b := files[i], files[i+1]
+		want := readMem(b)
+		for cut := 0; cut <= len(a); cut += 3 {
+			for kind := 0; kind < 2; kind++ {
+				var s *smf.SMF
+				var err error
+				var c engine.Caught
+				if kind == 0 {
+					rd := bytes.NewReader(a[:cut])
+					engine.Catch(func() { smf.ReadFrom(rd) })
+					rd.Reset(b)
+					c = engine.Catch(func() { s, err = smf.ReadFrom(rd) })
+				} else {
+					var buf bytes.Buffer
+					buf.Write(a[:cut])
+					engine.Catch(func() { smf.ReadFrom(&buf) })
+					buf.Reset()
+					buf.Write(b)
+					c = engine.Catch(func() { s, err = smf.ReadFrom(&buf) })
+				}
+				ctx.Eval()
+				ctx.Add("reused_source_reads", 1)
+				if got := summarize(s, err, c); !reflect.DeepEqual(got, want) {
+					if ctx.SigCount("reused-source:"+want.kind+"->"+got.kind) < 5 {
+						ctx.Violation("reused-source:"+want.kind+"->"+got.kind, map[string]interface{}{"kind": "reused-source", "first": engine.Hex(a[:cut]), "file": engine.Hex(b), "family": names[i+1],
+							"what": fmt.Sprintf("a reader object that had served %d bytes of another file before: %s, from a fresh reader %s", cut, got.kind, want.kind)})
+					}
+				}
+			}
+		}
+	}
+}
+
 // fmtLogger builds the text a real logger would build and throws it away.
 type fmtLogger struct{ n int }
 
@@ -659,6 +697,9 @@ func main() {
 		d := inputs[j].data
 		fragmentations(d, inputs[j].label, len(d) <= pairLimit, len(d) <= tripleLimit, len(d) <= quadLimit)
 	})
+	if !ctx.IsChild() {
+		reusedSource(files, names)
+	}
 	ctx.Set("valid_files", len(files))
 	ctx.Set("truncated_inputs", len(inputs)-len(files))
 	ctx.Sample(map[string]interface{}{"file": names[3], "fragmentation": "cuts at offsets {5, 17}, final fragment with io.EOF"})
@@ -683,6 +724,11 @@ func replay() {
 	}
 	if m["kind"] == "offset-source" {
 		offsetSources(data, want, "replay")
+		ctx.Finish("replay")
+	}
+	if m["kind"] == "reused-source" {
+		fs, ns := family()
+		reusedSource(fs, ns)
 		ctx.Finish("replay")
 	}
 	if m["kind"] == "fifo" {
